@@ -390,7 +390,7 @@ fn world_opts(prop: &str, thorough: bool, r: &mut Rng) -> WorldOpts {
         "C13" => WorldOpts { kinds: all.clone(), max_frames: frames, max_scenes: 2, max_objects: 3, twins: false, lifecycle: true, batches: true, rotation: false, constraints: 0, features: true, stress: false, long_life: if thorough { 300 } else { 60 }, lookalikes: false, wide: false, own_area: true, fast: false, late_bias: false },
         "C12" => WorldOpts { kinds: vec![Kind::VisualSort, Kind::BatchVisualSort], max_frames: frames, max_scenes: 2, max_objects: 4, twins: false, lifecycle: false, batches: true, rotation: false, constraints: 0, features: true, stress: true, long_life: 0, lookalikes: true, wide: false, own_area: true, fast: false, late_bias: false },
         "C02" => WorldOpts { kinds: sort_family, max_frames: frames, max_scenes: 2, max_objects: 5, twins: false, lifecycle: false, batches: true, rotation: true, constraints: 0, features: false, stress: true, long_life: 0, lookalikes: false, wide: false, own_area: false, fast: true, late_bias: false },
-        "C20" => WorldOpts { kinds: all.clone(), max_frames: frames, max_scenes: 2, max_objects: 4, twins: false, lifecycle: false, batches: true, rotation: false, constraints: 2, features: true, stress: true, long_life: 0, lookalikes: false, wide: false, own_area: false, fast: true, late_bias: false },
+        "C20" => WorldOpts { kinds: all.clone(), max_frames: frames, max_scenes: 3, max_objects: 4, twins: false, lifecycle: false, batches: true, rotation: false, constraints: 2, features: true, stress: true, long_life: 0, lookalikes: false, wide: false, own_area: false, fast: true, late_bias: true },
         "C04" => WorldOpts { kinds: all.clone(), max_frames: frames, max_scenes: 4, max_objects: 3, twins: false, lifecycle: true, batches: true, rotation: true, constraints: 1, features: true, stress: true, long_life: 0, lookalikes: false, wide: false, own_area: true, fast: true, late_bias: false },
         "C05" => WorldOpts { kinds: all.clone(), max_frames: frames, max_scenes: 3, max_objects: 5, twins: false, lifecycle: true, batches: true, rotation: true, constraints: 1, features: true, stress: true, long_life: 0, lookalikes: true, wide: true, own_area: true, fast: false, late_bias: false },
         _ => WorldOpts { kinds: vec![Kind::BatchSort, Kind::BatchVisualSort], max_frames: frames, max_scenes: 4, max_objects: 3, twins: false, lifecycle: true, batches: true, rotation: true, constraints: 1, features: true, stress: true, long_life: 0, lookalikes: false, wide: true, own_area: true, fast: false, late_bias: true },
